@@ -13,7 +13,7 @@ import (
 
 func init() {
 	register("C03", runC03, propMeta{
-		Explanation: "Decides effect confinement and the conversion tables behind faithful access to injected data, for all programs: (I1) in DataContext every read, write or call through the local store is reachable only over the miss edge of a lookup of the same key in the injected table, so an injected name always wins; (I2) reflect mutators (Set, SetInt, SetUint, SetFloat, SetString, SetBool, SetComplex, SetMapIndex) occur only in core.SetAttributeValue, core.SetSingleValue and DataContext.SetMapVarValue, which are reachable only from Assignment.Evaluate and the key binding of ForRangeStmt; reflect Call occurs only in ExecFunc and InvokeFunction; the injected table is written only by Add/PluginLoader/Del — hence reads, comparisons and calls leave injected data untouched; (I3) conversion tables, row by row: ParamsTypeChange converts parameter i against In(i) of the same index, for each of the 12 numeric kinds to exactly that kind, reading the argument with the accessor of its own class tag (36 rows); getNumType maps prefix to tag; GetWantedValue converts to the target kind with the accessor of the target's class (12 rows); SetAttributeValue and SetSingleValue use the setter of the target's kind group, read the source with the accessor of the source's class, and store a signed or float source into an unsigned target only under a `>= 0` test; (I4) Args.Evaluate stores the i-th evaluated argument at index i and GetRawTypeValue returns element 0; (I5) every MapIndex result returned by MapVar.Evaluate is guarded by IsValid() with reflect.Zero of the element type on the other edge. ParamsTypeChange converts every declared parameter: its loop counts from 0 to NumIn() of the same function type. (I8) the field read by GetStructAttributeValue and set by SetAttributeValue is FieldByName(the given name) of the given object, or FieldByIndex with a path found for that name on the object's own reflect.Type (tables keyed by the Type accepted, by a printed name not). Not decided: reflect's own semantics, whether a particular value is representable, user functions. A call node yields the injected call's result: every return of FunctionCall / MethodCall / ThreeLevelCall.Evaluate hands on the first result of DataContext.ExecFunc / ExecMethod / ExecThreeLevel unchanged, so the name is looked up in the injected table on every call. What Assignment.Evaluate hands to SetMapVarValue / SetValue are the name and key fields of its own node, and a compound form reads the current value through that same node (target as compiled).",
+		Explanation: "Decides effect confinement and the conversion tables behind faithful access to injected data, for all programs: (I1) in DataContext every read, write or call through the local store is reachable only over the miss edge of a lookup of the same key in the injected table, so an injected name always wins; (I2) reflect mutators (Set, SetInt, SetUint, SetFloat, SetString, SetBool, SetComplex, SetMapIndex) occur only in core.SetAttributeValue, core.SetSingleValue and DataContext.SetMapVarValue, which are reachable only from Assignment.Evaluate and the key binding of ForRangeStmt; reflect Call occurs only in ExecFunc and InvokeFunction; the injected table is written only by Add/PluginLoader/Del — hence reads, comparisons and calls leave injected data untouched; (I3) conversion tables, row by row: ParamsTypeChange converts parameter i against In(i) of the same index, for each of the 12 numeric kinds to exactly that kind, reading the argument with the accessor of its own class tag (36 rows); getNumType maps prefix to tag; GetWantedValue converts to the target kind with the accessor of the target's class (12 rows); SetAttributeValue and SetSingleValue use the setter of the target's kind group, read the source with the accessor of the source's class, and store a signed or float source into an unsigned target only under a `>= 0` test; (I4) Args.Evaluate stores the i-th evaluated argument at index i and GetRawTypeValue returns element 0; (I5) every MapIndex result returned by MapVar.Evaluate is guarded by IsValid() with reflect.Zero of the element type on the other edge. ParamsTypeChange converts every declared parameter: its loop counts from 0 to NumIn() of the same function type. (I8) the field read by GetStructAttributeValue and set by SetAttributeValue is FieldByName(the given name) of the given object, or FieldByIndex with a path found for that name on the object's own reflect.Type (tables keyed by the Type accepted, by a printed name not). Not decided: reflect's own semantics, whether a particular value is representable, user functions. A call node yields the injected call's result: every return of FunctionCall / MethodCall / ThreeLevelCall.Evaluate hands on the first result of DataContext.ExecFunc / ExecMethod / ExecThreeLevel unchanged, so the name is looked up in the injected table on every call. What Assignment.Evaluate hands to SetMapVarValue / SetValue are the name and key fields of its own node, and a compound form reads the current value through that same node (target as compiled). In the three call nodes the only way to a return that avoids the Exec* call is the failure of the argument evaluation (call-always-made).",
 		Assumptions: []string{"reflect accessors/setters behave as documented"},
 		Trusted:     commonTrusted,
 	})
@@ -333,12 +333,45 @@ func runC03(c *Ctx) {
 				okM := true
 				why := ""
 				for _, pv := range x.ValuesAt(cc.Args[0], in) {
+					if pv.V == nil || isZeroReflectValue(pv.V) {
+						// "not found": no function; acceptable where the call is made only under IsValid()
+						valid := false
+						for _, g := range x.GuardsOf(in.Block()) {
+							gc, pol := g.Cond, g.Pol
+							for {
+								u, isU := gc.(*ssa.UnOp)
+								if !isU || u.Op != token.NOT {
+									break
+								}
+								gc, pol = u.X, !pol
+							}
+							if call, isC := x.Origin(gc).(*ssa.Call); isC && pol {
+								if nm2, cc2 := reflectMethod(call); cc2 != nil && nm2 == "IsValid" && x.Cell(cc2.Args[0]) != nil && x.Cell(cc2.Args[0]) == x.Cell(cc.Args[0]) {
+									valid = true
+								}
+							}
+						}
+						if !valid {
+							okM, why = false, "no function (the zero reflect.Value) without an IsValid() test before the call"
+						}
+						continue
+					}
 					mc, isCall := x.Origin(pv.V).(*ssa.Call)
-					if pv.V == nil || !isCall {
+					if !isCall {
 						okM, why = false, x.Describe(pv.V)
 						continue
 					}
 					nm, mcc := reflectMethod(mc)
+					// Method(i) of the given object with i found for the given name on the object's own type:
+					// read out of a table keyed by the reflect.Type (a sync.Map, a map under a lock), or
+					// Type.MethodByName(name).Index
+					if mcc != nil && nm == "Method" && len(mcc.Args) == 2 && methodIndexForName(x, mcc.Args[1], mc, f.Params[1], 0) {
+						root := x.Origin(mcc.Args[0])
+						if root != ssa.Value(f.Params[0]) {
+							okM, why = false, "a method of "+x.Describe(mcc.Args[0])
+						}
+						continue
+					}
 					if mcc == nil || nm != "MethodByName" || len(mcc.Args) < 2 || x.Origin(mcc.Args[1]) != ssa.Value(f.Params[1]) {
 						okM, why = false, x.Describe(pv.V)
 						continue
@@ -1521,4 +1554,150 @@ func (c *Ctx) ruleValueAsRead(rule, key string, f *ssa.Function, accept func(*ss
 		}
 	})
 	c.Check(rule, key, bad == "" && n >= min, badPos, "%s (%d pass-through returns found): %s", what, n, orStr(bad, "ok"))
+}
+
+// typeHoldsReflectType: t is reflect.Type, or a struct (or pointer to one) with a field of that type.
+func typeHoldsReflectType(t types.Type) bool {
+	isRT := func(t types.Type) bool {
+		n, ok := t.(*types.Named)
+		return ok && n.Obj().Pkg() != nil && n.Obj().Pkg().Path() == "reflect" && n.Obj().Name() == "Type"
+	}
+	if p, isP := t.(*types.Pointer); isP {
+		t = p.Elem()
+	}
+	if isRT(t) {
+		return true
+	}
+	if st, ok := t.Underlying().(*types.Struct); ok {
+		for i := 0; i < st.NumFields(); i++ {
+			if isRT(st.Field(i).Type()) {
+				return true
+			}
+		}
+	}
+	return false
+}
+
+// methodIndexForName: every value the method index v can have at `at` was found for the given name on a
+// reflect.Type: read from a table under a key that contains the reflect.Type (sync.Map.Load, a map lookup),
+// or the Index of Type.MethodByName(name).
+func methodIndexForName(x *FnIndex, v ssa.Value, at ssa.Instruction, name *ssa.Parameter, d int) bool {
+	if d > 6 {
+		return false
+	}
+	// m.Index read straight from the reflect.Method variable
+	if u, isU := v.(*ssa.UnOp); isU && u.Op == token.MUL {
+		if fa, isFA := u.X.(*ssa.FieldAddr); isFA && fieldOf(fa) != nil && fieldOf(fa).Name() == "Index" {
+			al, isAl := x.ResolveAddr(fa.X).(*ssa.Alloc)
+			if !isAl || len(x.stores[al]) == 0 {
+				return false
+			}
+			for _, st := range x.stores[al] {
+				if !methodOfTypeByName(x, st.Val, name) {
+					return false
+				}
+			}
+			return true
+		}
+	}
+	pvs := x.ValuesAt(v, at)
+	if len(pvs) == 0 {
+		return false
+	}
+	for _, pv := range pvs {
+		if pv.V == nil || pv.Outside {
+			return false
+		}
+		switch t := x.Origin(pv.V).(type) {
+		case *ssa.TypeAssert:
+			if !methodIndexForName(x, t.X, t, name, d+1) {
+				return false
+			}
+		case *ssa.Extract:
+			switch src := t.Tuple.(type) {
+			case *ssa.Call:
+				cal := src.Call.StaticCallee()
+				if t.Index == 0 && cal != nil && cal.Name() == "Load" && cal.Pkg != nil && cal.Pkg.Pkg.Path() == "sync" && len(src.Call.Args) == 2 {
+					k := x.Unwrap(src.Call.Args[1])
+					if mi, isMI := k.(*ssa.MakeInterface); isMI {
+						k = mi.X
+					}
+					if !typeHoldsReflectType(k.Type()) {
+						return false
+					}
+					continue
+				}
+				return false
+			case *ssa.Lookup:
+				if t.Index != 0 || !typeHoldsReflectType(src.Index.Type()) {
+					return false
+				}
+			default:
+				return false
+			}
+		case *ssa.Lookup:
+			if !typeHoldsReflectType(t.Index.Type()) {
+				return false
+			}
+		case *ssa.Field:
+			// reflect.Method.Index of Type.MethodByName(name)
+			if !methodOfTypeByName(x, t.X, name) {
+				return false
+			}
+		case *ssa.UnOp:
+			fa, isFA := t.X.(*ssa.FieldAddr)
+			if t.Op != token.MUL || !isFA || fieldOf(fa) == nil || fieldOf(fa).Name() != "Index" {
+				return false
+			}
+			al, isAl := x.ResolveAddr(fa.X).(*ssa.Alloc)
+			if !isAl || len(x.stores[al]) == 0 {
+				return false
+			}
+			for _, st := range x.stores[al] {
+				if !methodOfTypeByName(x, st.Val, name) {
+					return false
+				}
+			}
+		default:
+			return false
+		}
+	}
+	return true
+}
+
+// methodOfTypeByName: v is the reflect.Method that <a reflect.Type>.MethodByName(name) returned.
+func methodOfTypeByName(x *FnIndex, v ssa.Value, name *ssa.Parameter) bool {
+	ex, ok := x.Origin(v).(*ssa.Extract)
+	if !ok || ex.Index != 0 {
+		return false
+	}
+	call, ok := ex.Tuple.(*ssa.Call)
+	if !ok || !call.Call.IsInvoke() || call.Call.Method.Name() != "MethodByName" || !typeHoldsReflectType(call.Call.Value.Type()) {
+		return false
+	}
+	return len(call.Call.Args) == 1 && x.Origin(call.Call.Args[0]) == ssa.Value(name)
+}
+
+// isZeroReflectValue: v is the composite literal reflect.Value{} (an Alloc never stored to, read whole).
+func isZeroReflectValue(v ssa.Value) bool {
+	u, ok := v.(*ssa.UnOp)
+	if !ok || u.Op != token.MUL {
+		return false
+	}
+	al, ok := u.X.(*ssa.Alloc)
+	if !ok || !isReflectValue(al.Type().(*types.Pointer).Elem()) {
+		return false
+	}
+	for _, r := range *al.Referrers() {
+		switch t := r.(type) {
+		case *ssa.UnOp, *ssa.DebugRef:
+		case *ssa.Store:
+			if t.Addr == ssa.Value(al) {
+				return false
+			}
+		default:
+			return false
+		}
+	}
+	return true
 }
